@@ -147,6 +147,46 @@ def run(ctx):
     else:
         ctx.ok("COV", f"{tv.qualname} / COV / whole-vector orientation", ctx.where(tv), "scalar factor")
 
+    # ================================================================== the circle fit is similarity-equivariant
+    ctx.clause("the fitted centre moves and scales with the points (objective invariant / homogeneous, start value a point)")
+    dl = repo.func("forsys.virtual_edges.dlite_circle_method")
+    obj = repo.functions.get("forsys.virtual_edges.dlite_circle_method.<locals>.objective_f")
+    if obj is None:
+        raise AnalysisError("dlite_circle_method: nested objective function not found - re-bind the anchor")
+    ctx.touch(dl, obj)
+    so = sym.summarize(repo, obj.qualname)
+    px, py = (T.sym(p) for p in dl.params[:2])
+    c = T.sym(obj.params[0])
+
+    def fit_space_seed(t):
+        if t in (px, py):
+            return T.ONE
+        if t[0] == "idx" and t[1] == c:
+            return T.ONE
+        return None
+
+    def fit_dim_seed(t):
+        if t in (px, py) or (t[0] == "idx" and t[1] == c):
+            return L
+        return None
+    acalls = dict(rules.BASIC_AFF_CALLS)
+    dcalls = dict(rules.BASIC_DIM_CALLS)
+    Aw = rules.AffTyper(fit_space_seed, acalls)
+    Dw = rules.DimTyper(fit_dim_seed, dcalls)
+    w = Aw.weight(so.ret())
+    ctx.check(w == T.ZERO, "AFF", f"{obj.qualname} / AFF / residuals unchanged when points and centre are translated together", ctx.where(obj),
+              "distance-minus-mean-distance has translation weight 0", f"the fit residual has translation weight {T.show(w) if w != rules.TOP else 'TOP'}: the fitted centre would not move with the points")
+    try:
+        d = Dw.dim(so.ret())
+        ctx.check(d == L, "DIM", f"{obj.qualname} / DIM / residuals homogeneous of degree 1", ctx.where(obj), "L", f"the fit residual has dimension {d}, expected L")
+    except rules.Inhomogeneous as e:
+        ctx.violation("DIM", f"{obj.qualname} / DIM / residuals homogeneous of degree 1", ctx.where(obj), f"inhomogeneous residual: {e}")
+    sd = sym.summarize(repo, dl.qualname)
+    starts = [e.args[1] for e in sd.calls() if e.fname == "scipy.optimize.leastsq" and len(e.args) >= 2]
+    ok = len(starts) == 1 and Aw.weight(starts[0]) == T.ONE
+    ctx.check(ok, "AFF", f"{dl.qualname} / AFF / start value of the fit is a point (translation weight 1)", ctx.where(dl),
+              "(mean(xs), mean(ys))", "the start value of the circle fit is not a point that moves with the data")
+
     # ================================================================== pressure right-hand side
     ctx.clause("the total turning is scale free and translation invariant; the pressure rhs is tension x L^0")
     cv = repo.func(f"{BE}.calculate_curvature")
@@ -325,6 +365,8 @@ def run(ctx):
 
 _E, _P, _T = "forsys/edge.py", "forsys/fmatrix.py", "forsys/time_series.py"
 PINNED = [
+    ("circle fit started at the origin", "forsys/virtual_edges.py", "center, _ = sco.leastsq(objective_f, (np.mean(xs), np.mean(ys)))", "center, _ = sco.leastsq(objective_f, (0.0, 0.0))"),
+    ("circle fit residual uses absolute x", "forsys/virtual_edges.py", "distances = np.sqrt((xs - c[0]) ** 2 + (ys - c[1]) ** 2)", "distances = np.sqrt((xs) ** 2 + (ys - c[1]) ** 2)"),
     ("coordinates rounded inside the tangent", _E, "vector = np.array((- (vobject.y - yc), (vobject.x - xc)))", "vector = np.array((- (round(vobject.y, 3) - yc), (round(vobject.x, 3) - xc)))"),
     ("tangent from absolute coordinates", _E, "vector = np.array((- (vobject.y - yc), (vobject.x - xc)))", "vector = np.array((- (vobject.y), (vobject.x - xc)))"),
     ("versor not normalised (dimension L)", _E, "versor = vector / np.linalg.norm(vector)", "versor = vector"),
